@@ -30,7 +30,7 @@ theorem ext_createObject_none (u : SDB) (a : Addr) (hc : Coherent u) (hl : look 
   have ht := look_none_trie hc hl
   rw [createObject_none u a hl]
   refine ⟨⟨⟨[.createObject a], by simp [push], ?_, by simp [EntryOK]⟩, by simp [push], by simp [push], by simp [push],
-    fun b hb => by simpa [Tomb, push] using tomb_putObj (o := { blank with armed := false }) rfl hb⟩, ?_⟩
+    fun b q hb => by simpa [Tomb, push] using tomb_putObj (o := { blank with armed := false }) rfl hb⟩, ?_⟩
   · rw [List.length_singleton, undoN_succ_cons 0 _ (.createObject a) u.journal (by simp [push]), undoN_zero]
     refine ⟨by simp [undo, push], by simp [undo, push], by simp [undo, push], by simp [undo, push], by simp [undo, push],
       by simp [undo, push], by simp [undo, push], fun b => ?_⟩
@@ -45,7 +45,7 @@ theorem ext_createObject_some (u : SDB) (a : Addr) (p : Obj) (hl : look u a = so
   have hpd := look_not_deleted hl
   rw [createObject_some u a p hl]
   refine ⟨⟨⟨[.resetObject a p], by simp [push], ?_, by simpa [EntryOK] using hpd⟩, by simp [push], by simp [push], by simp [push],
-    fun b hb => by simpa [Tomb, push] using tomb_putObj (o := { blank with armed := false }) rfl hb⟩, ?_⟩
+    fun b q hb => by simpa [Tomb, push] using tomb_putObj (o := { blank with armed := false }) rfl hb⟩, ?_⟩
   · rw [List.length_singleton, undoN_succ_cons 0 _ (.resetObject a p) u.journal (by simp [push]), undoN_zero]
     refine ⟨by simp [undo, push], by simp [undo, push], by simp [undo, push], by simp [undo, push], by simp [undo, push],
       by simp [undo, push], by simp [undo, push], fun b => ?_⟩
@@ -83,7 +83,7 @@ theorem ext_touch (u : SDB) (a : Addr) (o : Obj) (hl : look u a = some o) : Ext 
   have hod := look_not_deleted hl
   unfold touch
   refine ⟨⟨[.touch a o.touched (!o.armed)], by simp [push], ?_, by simp [EntryOK]⟩, by simp [push], by simp [push], by simp [push],
-    fun b hb => by simpa [Tomb, push] using tomb_writeObj (o := { o with touched := true }) hod hb⟩
+    fun b q hb => by simpa [Tomb, push] using tomb_writeObj (o := { o with touched := true }) hod hb⟩
   rw [List.length_singleton, undoN_succ_cons 0 _ (.touch a o.touched (!o.armed)) u.journal (by simp [push]), undoN_zero]
   generalize hw : ({ writeObj (push u (.touch a o.touched (!o.armed))) a { o with touched := true } with journal := u.journal } : SDB) = w
   have hlw : look w a = some { o with touched := true, armed := false } := by
@@ -200,7 +200,7 @@ theorem ext_createAccount (u : SDB) (a : Addr) (hc : Coherent u) : Ext u (create
     rw [createObject_some u a p hl]
     simp only
     refine ⟨⟨[.resetObject a p], by simp [push], ?_, by simpa [EntryOK] using hpd⟩, by simp [push], by simp [push], by simp [push],
-      fun b hb => ?_⟩
+      fun b q hb => ?_⟩
     rotate_left
     · have h1 := tomb_putObj (o := { ({ blank with armed := false } : Obj) with balance := p.balance }) rfl hb
       have h2 := tomb_putObj (o := { blank with armed := false }) rfl h1
@@ -217,13 +217,13 @@ theorem ext_createAccount (u : SDB) (a : Addr) (hc : Coherent u) : Ext u (create
 
 theorem ext_addRefund (u : SDB) (g : Nat) : Ext u (addRefund u g) := by
   refine ⟨⟨[.refund u.refund], by simp [addRefund, push], ?_, by simp [EntryOK]⟩, by simp [addRefund, push], by simp [addRefund, push],
-    by simp [addRefund, push], fun b hb => by simpa [Tomb, addRefund, push] using hb⟩
+    by simp [addRefund, push], fun b q hb => by simpa [Tomb, addRefund, push] using hb⟩
   rw [List.length_singleton, undoN_succ_cons 0 _ (.refund u.refund) u.journal (by simp [addRefund, push]), undoN_zero]
   exact Sim.of_fields rfl rfl rfl rfl rfl rfl rfl rfl
 
 theorem ext_addLog (u : SDB) (t : Nat) : Ext u (addLog u t) := by
   refine ⟨⟨[.addLog u.thash], by simp [addLog, push], ?_, by simp [EntryOK]⟩, by simp [addLog, push], by simp [addLog, push],
-    by simp [addLog, push], fun b hb => by simpa [Tomb, addLog, push] using hb⟩
+    by simp [addLog, push], fun b q hb => by simpa [Tomb, addLog, push] using hb⟩
   rw [List.length_singleton, undoN_succ_cons 0 _ (.addLog u.thash) u.journal (by simp [addLog, push]), undoN_zero]
   exact Sim.of_fields rfl rfl rfl (by simp [undo, addLog, push, popLog]) (by simp [undo, addLog, push]) rfl rfl rfl
 
@@ -234,7 +234,7 @@ theorem ext_addPreimage (u : SDB) (h p : Nat) : Ext u (addPreimage u h p) := by
   | none =>
     simp only
     refine ⟨⟨[.addPreimage h], by simp [push], ?_, by simp [EntryOK]⟩, by simp [push], by simp [push], by simp [push],
-      fun b hb => by simpa [Tomb, push] using hb⟩
+      fun b q hb => by simpa [Tomb, push] using hb⟩
     rw [List.length_singleton, undoN_succ_cons 0 _ (.addPreimage h) u.journal (by simp [push]), undoN_zero]
     refine Sim.of_fields rfl rfl rfl rfl rfl ?_ rfl rfl
     funext x
